@@ -357,12 +357,14 @@ def check_sim(case):
     return passed(nontrivial, tags)
 
 
-def _closing_kinds(spec, wn, cut):
-    """kinds of the links that separate the cut-off part and were not closed by the user-level statuses"""
+def _closing_kinds(spec, cut, tf):
+    """kinds of the links that separate the cut-off part without being closed by the user-level statuses, i.e. the
+    links whose own status logic (check valve, pump, regulating valve, tank limits) takes part in the cut"""
     kinds = set()
     tanks = set(t['name'] for t in spec['tanks'])
+    us = user_status_at(spec, tf)
     for name, a, b, kind, l in _links(spec):
-        if (a in cut) == (b in cut):
+        if (a in cut) == (b in cut) or us[name] == 'CLOSED':
             continue
         if kind == 'pipe':
             k = 'cv' if l.get('cv') else ('tank_link' if (a in tanks or b in tanks) else 'pipe')
@@ -386,9 +388,7 @@ def _judge_failed_first_step(spec, run, ucut, hw, tags, paused=False):
     tags.add('not_converged')
     if failure_time(run) is None:
         return inconclusive('not converged (no failure time)', tags)
-    if paused:
-        return inconclusive('not converged in a paused run', tags)
-    full = copy.deepcopy(spec)
+    full = copy.deepcopy(spec)     # (a paused run is judged by its uninterrupted twin)
     full['opts']['rep'] = 'ALL'
     wn = _build(full)
     rf = S.run_wntr(wn, hw_approx=hw)
@@ -423,7 +423,12 @@ def _judge_failed_first_step(spec, run, ucut, hw, tags, paused=False):
     before = [t for t in rr.times if t < tf]
     if list(rf.times) != before or tf not in list(rr.times):
         return inconclusive('not converged, the rest alone takes other steps', tags)
-    kinds = _closing_kinds(spec, wn, cut)
+    kinds = _closing_kinds(spec, cut, tf)
+    if kind == 'solver':
+        # Newton started from the solution of the previous trial / step; the rest alone starts cold.  That is a
+        # difference of the numerical start, not of the isolation logic: not decidable from outside.
+        return inconclusive('Newton did not converge with a part cut off, the rest alone converges from a cold start',
+                            tags)
     return fail('rest_not_solved/%s/%s' % (kind, '+'.join(kinds) or 'user_closed'),
                 'the run stopped at t=%s (%s) while junctions %s are cut off from every source (cut off in every '
                 'reported row before; separating links %s; statuses left in the model: closed %s); the same network '
@@ -457,6 +462,7 @@ def sim_case(draw, tier='quick'):
         if v['type'] == 'PSV' and draw(st.integers(0, 2)) != 0:
             v.update(type='TCV', setting=draw(st.sampled_from([0.0, 1.0, 5.0])))
     jn = [j['name'] for j in spec['junctions']]
+    tn = set(n['name'] for n in spec['tanks'] + spec['reservoirs'])
     used = set(n for n, _a, _b, _k, _l in _links(spec))
     cnt = [0]
 
@@ -482,7 +488,12 @@ def sim_case(draw, tier='quick'):
                                       'demands': [[draw(st.sampled_from([0.001, 0.0005, 0.002, 0.0])), None, None]]})
             a, b = (at, nm) if draw(st.booleans()) else (nm, at)
             z = draw(st.integers(0, 11))
-            if z == 0:      # a small booster, possibly pointing out of the dead end
+            if z == 4 and at not in tn and nm not in tn:      # a regulating valve, possibly pointing out of the dead end
+                vt = draw(st.sampled_from(['PRV', 'PSV', 'FCV']))
+                spec['valves'].append({'name': newname('V'), 'a': a, 'b': b, 'type': vt, 'diam': 0.2, 'minor': 0.0,
+                                       'setting': 0.001 if vt == 'FCV' else draw(st.sampled_from([10.0, 25.0, 50.0])),
+                                       'status': 'ACTIVE'})
+            elif z == 0:      # a small booster, possibly pointing out of the dead end
                 cname = 'HC%d' % (len(spec['curves']) + 1)
                 spec['curves'][cname] = {'type': 'HEAD', 'pts': [[0.004, draw(st.sampled_from([10.0, 30.0]))]]}
                 spec['pumps'].append({'name': newname('PU'), 'a': a, 'b': b, 'type': 'HEAD', 'power': None,
